@@ -3,7 +3,7 @@
    run-loop handlers, as repaired by the fix commit recorded in known_findings.d/C09.json), the proofs
    are in GS.ReqMgrMsgProofs. *)
 From Coq Require Import List NArith Bool.
-From GS Require Import Base ReqMgrMsg ReqMgrMsgProofs.
+From GS Require Import Base ReqMgrMsg ReqMgrMsgProofs ReqMgrMsgMonitor.
 Import ListNotations.
 Open Scope N_scope.
 
@@ -59,6 +59,20 @@ Theorem C09_no_panic : forall (hook : peer -> resp -> hres) (lbs : list label),
   (forall m, In (LMsg m) lbs -> msg_wfb m = true) -> rm_nilderef (fst (run hook empty_rm lbs)) = false.
 Proof. exact c09_no_panic. Qed.
 Print Assumptions C09_no_panic.
+
+(* The executable monitor MON09 ([rcase_mon], the predicate evaluated on the implementation's observations
+   in every run) accepts EVERY history of the model: for every hook oracle and every label sequence,
+   written in the driver's observation format ([model_obs]: visible events and the table as an update
+   list after every label), together with the run of the same labels from which every response whose
+   sender is not the owner of its request has been removed ([clean_label om], om = any map from ids to
+   owners that agrees with the sequence's LNew labels — the driver takes the first LNew of each id):
+   (1) the frame holds at every message, (2) every hook call is made for a request of the calling peer,
+   (3) the two runs' observations are identical. *)
+Theorem C09_monitor : forall (hook : peer -> resp -> hres) (om : rid -> option peer) (rows : list hrow) (lbs : list label),
+  (forall id p, In (LNew id p) lbs -> om id = Some p) ->
+  rcase_mon (mk_rcase rows lbs (model_obs hook empty_rm lbs) (model_obs hook empty_rm (map (clean_label om) lbs))) = true.
+Proof. exact c09_monitor. Qed.
+Print Assumptions C09_monitor.
 
 (* Positive half (the frame is not vacuous): the owner's response reaches the response hooks, and —
    hook content, loader accepting, non-terminal status — becomes the last response and its metadata
@@ -127,3 +141,12 @@ Example C09_monitor_rejects :
        mk_sobs [EvHook 2 (mk_resp 1 14 [] [])] [(1, Some (mk_entry 1 Queued None false (mk_resp 1 14 [] []) None))]]
       [mk_sobs [EvPush 1 1] [(1, Some (fresh_entry 1 1))]; mk_sobs [] []]) = false.
 Proof. vm_compute. reflexivity. Qed.
+
+(* the model's own observation of the example history, foreign messages included, is accepted, and the
+   cleaned labels differ from the original ones (the foreign responses are gone) *)
+Example C09_monitor_example :
+  let lbs := ex_start ++ [ex_foreign; ex_genuine; ex_foreign; LRelease 1 true; ex_foreign; LUnpause 1] in
+  let om := fun id : rid => if id =? 1 then Some 1 else None in
+  rcase_mon (mk_rcase [] lbs (model_obs ex_hooks empty_rm lbs) (model_obs ex_hooks empty_rm (map (clean_label om) lbs))) = true /\
+  nth 3 (map (clean_label om) lbs) (LGetTask 0) = LMsg (mk_msg 2 [] [(5, 4)]).
+Proof. vm_compute. split; reflexivity. Qed.
